@@ -206,6 +206,11 @@ func (b *batch) flush() {
 		got := b.c.drv.AskMany(b.lines)
 		for i := range got {
 			b.c.rep.TracesValidated++
+			if strings.HasPrefix(b.want[i], "\x00prefix:") {
+				if strings.HasPrefix(got[i], strings.TrimPrefix(b.want[i], "\x00prefix:")) {
+					continue
+				}
+			}
 			if got[i] != b.want[i] {
 				var d map[string]interface{}
 				if b.desc[i] != nil {
@@ -216,4 +221,11 @@ func (b *batch) flush() {
 		}
 	}
 	b.lines, b.want, b.desc = nil, nil, nil
+}
+
+// addPrefix is like add but only requires the driver's reply to start with want (error texts differ between Go and the model).
+func (b *batch) addPrefix(line, want string, desc func() map[string]interface{}) {
+	b.lines = append(b.lines, line)
+	b.want = append(b.want, "\x00prefix:"+want)
+	b.desc = append(b.desc, desc)
 }
